@@ -86,7 +86,7 @@ CHECKS['C03'] = dict(
         "raw/double/single quoted, empty, boolean mark, listed boolean, implied with and without value, expression, class=/id=, "
         "values containing > and *). TLC checks that the merge machine (one action per mention) equals the loop-free contract "
         "(position of first mention, class values joined in written order, last value - first under reverseAttributes), that no "
-        "name is emitted twice, and computes for six option rows (html/xml/jsx/vue x quotes x case x compactBoolean x "
+        "name is emitted twice, and computes for eight option rows (html/xml/jsx/vue x quotes x case x compactBoolean x "
         "selfClosingStyle) the attribute list the printer must emit. Every vector is expanded by the real code under the rows and the "
         "printed tag's (name, quote, value) list read by the independent lexer must be equal.",
    note="Statement-silent mention sequences (flag computed by the spec) are generated but not judged. Snippet-provided attributes "
@@ -99,7 +99,7 @@ CHECKS['C04'] = dict(
         "#, @, blanks, a non-ASCII stand-in, nested braces, backslash escapes incl. escaped $ { } and backslash) up to the bound and "
         "simulated to 14 units; TLC checks the tokenizer-in-text-context machine (white-space token, literal() with escaped() and "
         "nesting counter) against TextOf = payload minus escaping backslashes, and that nothing ends the text early; each payload is "
-        "replayed at seven positions text may appear in, and the printed content of the element must equal TextOf byte for byte. "
+        "replayed at nine positions text may appear in, and the printed content of the element must equal TextOf byte for byte. "
         "AbbrWrap.tla: every list of up to 3 (simulated 6) wrap lines over 17 atoms (blank, padded, lines that look like syntax or "
         "numbering, non-ASCII, backslash) x 15 templates (implicit repeater on elements and groups, $# in attribute and text, text "
         "already present, numbering, no repeater); TLC checks the converter loop with its `inserted` flag against a loop-free "
